@@ -61,12 +61,7 @@ func (f *Frame) assertClause(cl Clause, name, kind string, st *State, guard Term
 		return
 	}
 	env := f.specEnv(st, at, atI)
-	hyps, goal, err := env.goalParts(cl.Expr)
-	if err != nil {
-		vc.specError(cl, err)
-		return
-	}
-	vc.addObl(&Obligation{Name: name, Kind: kind, Tags: cl.Tags, Goal: goal, Hyps: hyps, Guard: guard, Src: cl.Src, Where: fmt.Sprintf("%s:%d", shortFile(cl.File), cl.Line)})
+	vc.addGoals(env, cl, name, kind, guard, "", fmt.Sprintf("%s:%d", shortFile(cl.File), cl.Line))
 }
 
 func (f *Frame) assumeClause(cl Clause, st *State, guard Term, at *ssa.BasicBlock, atI ssa.Instruction) {
@@ -229,13 +224,7 @@ func (f *Frame) callSiteClauses(in ssa.Instruction, c *ssa.CallCommon, args []Va
 		}
 		n++
 		if kind == "asserts" {
-			hyps, goal, err := env.goalParts(cl.Expr)
-			if err != nil {
-				f.vc.specError(cl, err)
-				continue
-			}
-			f.vc.addObl(&Obligation{Name: fmt.Sprintf("call:%s:asserts[%s]", ordName, label), Kind: "callsite", Tags: cl.Tags, Goal: goal, Hyps: hyps, Guard: o.guard,
-				Src: cl.Src, Where: f.posString(in.Pos())})
+			f.vc.addGoals(env, cl, fmt.Sprintf("call:%s:asserts[%s]", ordName, label), "callsite", o.guard, "", f.posString(in.Pos()))
 		} else {
 			t, err := env.evalBool(cl.Expr)
 			if err != nil {
@@ -371,14 +360,7 @@ func (f *Frame) applyContract(con *Contract, fn *ssa.Function, c *ssa.CallCommon
 	pre := o.st.clone()
 	env := &SpecEnv{vc: vc, vars: vars, cur: o.st, old: pre, pkg: pkg}
 	for i, cl := range con.Requires {
-		hyps, goal, err := env.goalParts(cl.Expr)
-		if err != nil {
-			vc.specError(cl, err)
-			continue
-		}
-		tags := cl.Tags
-		vc.addObl(&Obligation{Name: fmt.Sprintf("call:%s:requires[%s]", ordName, clauseLabel(cl, i)), Kind: "requires", Tags: tags, Goal: goal, Hyps: hyps, Guard: o.guard,
-			Src: "requires " + cl.Src + "  (of " + con.Key + ")", Where: f.posString(in.Pos())})
+		vc.addGoals(env, cl, fmt.Sprintf("call:%s:requires[%s]", ordName, clauseLabel(cl, i)), "requires", o.guard, "requires (of "+shortFunc(con.Key)+") ", f.posString(in.Pos()))
 	}
 	// havoc
 	for i, m := range con.Modifies {
@@ -475,9 +457,6 @@ func (e *SpecEnv) locations(m SExpr) []location {
 			return []location{{name: "G." + n.Name, sort: g.Sort, whole: true}}
 		}
 	case SHeapArr:
-		v := e.heapArr(n.Path)
-		// recover the key from the term name is fragile; recompute
-		_ = v
 		return e.heapArrLocs(n.Path)
 	case SSel:
 		x := e.Eval(n.X)
